@@ -186,6 +186,6 @@ impl crate::fdl::FdlApplication for DpScanner {
 }
 
 #[cfg(kani)]
-mod verif {
+pub(crate) mod verif {
     include!(concat!(env!("PROFIRUST_VERIF_HARNESS"), "/dp_scan.rs"));
 }
